@@ -293,6 +293,9 @@ def run(ctx, rep):
     # the files named first are still there when the last one has been added (the set does not depend on the order of the arguments)
     from rules.c03 import rule_grow
     rule_grow(ctx, rep, rid="R-C06-grow")
+    # what a pre-processing step does to a file does not depend on how many elements share the file
+    from rules.c08 import rule_everyblock
+    rule_everyblock(ctx, rep, rid="R-C06-everyblock")
     # which of two same-named declarations survives must not depend on the order of the files: a duplicate is always an error
     from rules.c03 import rule_dupreport
     rule_dupreport(ctx, rep, rid="R-C06-dupreport")
